@@ -79,13 +79,9 @@ def configs(tier):
     for i, dc in enumerate(dcs):
         for W in (1, 2, 3):
             if tier == "quick":
-                bound = 1
-                if i == 0 and W == 2:
-                    bound = 2
+                bound = 2 if W == 2 else 1
             else:
-                bound = 2
-                if i in (0, 3) and W == 2:
-                    bound = 3
+                bound = 3 if W == 2 else 2
             out.append({"dc": dc, "W": W, "bound": bound})
     return out
 
@@ -111,6 +107,8 @@ def shards(tier, seed):
             roots.append(choices[:4])
         for r in roots:
             tasks.append({"cfg": cfg, "root": r})
+    for tc in tlc_configs(tier):
+        tasks.append({"tlc": tc})
     hs = ["0", "1", "2", "3", "random"]
     for i, hseed in enumerate(hs):
         for cpus in (1, 2, 16):
@@ -124,6 +122,8 @@ def run(task):
            "extra": {"job_visible_operations": 0, "free_running_processes": 0}}
     if "free" in task:
         return run_free(task["free"], res)
+    if "tlc" in task:
+        return run_tlc_task(task["tlc"], res)
     from .. import sched
     sched.install()
     cfg = task["cfg"]
@@ -243,11 +243,102 @@ def run_free(free, res):
     return res
 
 
+def tlc_configs(tier):
+    out = [{"n": 2, "prec": None, "W": 2, "sampler": "stat"}, {"n": 2, "prec": None, "W": 1, "sampler": "stat"}]
+    if tier == "thorough":
+        out += [{"n": 2, "prec": None, "W": 3, "sampler": "stat"}, {"n": 3, "prec": None, "W": 2, "sampler": "shuffle"},
+                {"n": 2, "prec": 0.5, "W": 2, "sampler": "shuffle"}]
+    return out
+
+
+def gamma_only_driver(tc, seed=5):
+    from ..load import load
+    pa = load()
+    d = A.DISSIMS.get(RECIPE)
+
+    def driver():
+        np.random.seed(seed)
+        c = build_continuum(REF)
+        s = None if tc["sampler"] == "stat" else pa.ShuffleContinuumSampler()
+        res = c.compute_gamma(d, n_samples=tc["n"], precision_level=tc["prec"], sampler=s)
+        return {"observed": repr(float(res.observed_disorder)),
+                "chance": [repr(float(al.disorder)) for al in res.chance_alignments], "gamma": repr(float(res.gamma))}
+    return driver
+
+
+def run_tlc_task(tc, res):
+    """E5: every maximal path of the TLC state graph replayed on the implementation, enabled sets compared at
+    every scheduling point; path count compared with E1's own enumeration of the same driver."""
+    from .. import sched, tlc
+    sched.install()
+    drv = gamma_only_driver(tc)
+    with serial_pool():
+        base = drv()
+    J1 = tc["n"] + 1
+    J2 = len(base["chance"]) - tc["n"]
+    graph = tlc.run_tlc(J1, J2, tc["W"])
+    paths = tlc.maximal_paths(graph)
+    res["extra"]["tlc_distinct_states"] = graph["distinct"]
+    res["extra"]["tlc_paths"] = len(paths)
+    case = {"tlc": tc}
+    bad = 0
+    for path in paths:
+        pc = tlc.PathChooser(graph, path)
+        res["evaluations"] += 1
+        try:
+            val, s = sched.run_controlled(drv, pc, tc["W"])
+        except Exception as e:  # noqa
+            bad += 1
+            if bad == 1:
+                res["extra"]["tlc_conformance_failure"] = f"{tc}: {pc.mismatch or e}"
+            continue
+        if pc.i != len(path):
+            bad += 1
+            res["extra"].setdefault("tlc_conformance_failure", f"{tc}: implementation finished after {pc.i} of "
+                                                                f"{len(path)} model steps")
+            continue
+        res["traces"] += 1
+        res["transitions"] += len(path)
+        res["state_set"].append(h(["tlc", tc, [l for l, _, _ in path]]))
+        if val != base or s.races:
+            res["violations"].append({"msg": f"model path {[l for l, _, _ in path]} gives {val} (baseline {base}), "
+                                             f"races {s.races[:1]}", "case": case})
+    # E1's own count for the same driver
+    count = 0
+
+    def run_fn(ch):
+        v, s = sched.run_controlled(drv, ch, tc["W"])
+        return v
+    for choices, ch, val, cut in explore(run_fn, bound=None, horizon=400):
+        count += 1
+        res["evaluations"] += 1
+        res["transitions"] += len(ch.trace)
+        res["state_set"].append(h(["e1-unbounded", tc, choices]))
+        if val != base:
+            res["violations"].append({"msg": f"schedule {choices} gives {val}, baseline {base}", "case": case})
+    res["extra"]["e1_unbounded_schedules"] = count
+    if count != len(paths) and "tlc_conformance_failure" not in res["extra"]:
+        res["extra"]["tlc_conformance_failure"] = f"{tc}: TLC has {len(paths)} maximal paths, E1 enumerates {count} schedules"
+    res["extra"]["tlc_paths_replayed_ok"] = len(paths) - bad
+    res["nontrivial"] += res["state_set"][:]
+    return res
+
+
+def finalize(cov):
+    if cov.get("tlc_conformance_failure"):
+        # the pool protocol of the code no longer matches mc/tla/Pool.tla.tmpl: not a verdict on the property
+        # (E1 on the real code decides), but it is printed so that the model gets re-bound to the code
+        print("# NOTE model/implementation conformance (E5):", cov["tlc_conformance_failure"])
+    return []
+
+
 def replay(case):
     res = {"evaluations": 0, "transitions": 0, "traces": 0, "state_set": [], "nontrivial": [], "outcomes": [],
            "samples": [], "violations": [], "unspecified": 0, "extra": {"free_running_processes": 0}}
     if "free" in case:
         return run_free(case["free"], res)["violations"][:1]
+    if "tlc" in case:
+        return run_tlc_task(case["tlc"], res)["violations"][:1]
     from .. import sched
     sched.install()
     cfg = case["cfg"]
